@@ -10,6 +10,7 @@ import (
 	"io/ioutil"
 	"os"
 	"path/filepath"
+	"strings"
 
 	"github.com/ProjectSerenity/firefly/kbuild/zzverif/vlib"
 )
@@ -248,4 +249,85 @@ func c20ImagePhase(c *vlib.Case, run *vlib.Run, root, scratch string, r *vlib.Ra
 		}
 	}
 	run.Count("image_pairs_compared", 1)
+}
+
+// c20AsmPhase: the number of entries the image reserves for the table comes from the assembler flag
+// -dNUM_REDIRECTS=<n> that compileRT0 passes for every rt0 assembly file. A stub assembler (a two-line shell
+// script) records its arguments; every assembly file must be assembled once, with n = the number of annotations.
+func c20AsmPhase(c *vlib.Case, run *vlib.Run, root, scratch string, r *vlib.Rand) {
+	old, err := os.Getwd()
+	if err != nil {
+		return
+	}
+	if err := os.Chdir(root); err != nil {
+		return
+	}
+	defer os.Chdir(old)
+	dir := filepath.Join("arch", "amd64", "rt0")
+	if err := os.MkdirAll(filepath.Join(dir, "include.d"), 0755); err != nil {
+		run.Inconclusive("cannot create the rt0 directory: " + err.Error())
+		return
+	}
+	defer os.RemoveAll(filepath.Join(root, "arch"))
+	var asm []string
+	for i, n := 0, r.Range(1, 3); i < n; i++ {
+		name := fmt.Sprintf("rt%d_%s.s", i, []string{"entry", "long", "redirects"}[r.Intn(3)])
+		asm = append(asm, name)
+		ioutil.WriteFile(filepath.Join(dir, name), []byte("; stub\n"), 0644)
+	}
+	ioutil.WriteFile(filepath.Join(dir, "constants.inc"), []byte("; not assembled\n"), 0644)
+	ioutil.WriteFile(filepath.Join(dir, "notes.s.txt"), []byte("not assembled\n"), 0644)
+
+	work := filepath.Join(scratch, "work")
+	os.MkdirAll(work, 0755)
+	defer os.RemoveAll(work)
+	logf := filepath.Join(scratch, "nasm.log")
+	os.Remove(logf)
+	stub := filepath.Join(scratch, "nasm-stub.sh")
+	if err := ioutil.WriteFile(stub, []byte("#!/bin/sh\necho \"$*\" >> '"+logf+"'\n"), 0755); err != nil {
+		run.Inconclusive("cannot write the assembler stub: " + err.Error())
+		return
+	}
+	defer os.Remove(stub)
+	defer os.Remove(logf)
+
+	ctx := &Context{Architectures: []string{"amd64"}, WorkDir: work, nasm: stub}
+	ctx.FindRedirects()
+	n := len(ctx.Redirects)
+	if err := ctx.compileRT0("amd64"); err != nil {
+		run.Inconclusive("compileRT0 with the stub assembler failed: " + err.Error())
+		return
+	}
+	b, _ := ioutil.ReadFile(logf)
+	lines := strings.Split(strings.TrimSpace(string(b)), "\n")
+	if len(b) == 0 {
+		lines = nil
+	}
+	run.Count("assembler_invocations_checked", int64(len(lines)))
+	if len(lines) != len(asm) {
+		c.Violationf("asm-invocations", "%d assembly files in arch/amd64/rt0 but the assembler ran %d time(s): %q", len(asm), len(lines), lines)
+		return
+	}
+	want := fmt.Sprintf("-dNUM_REDIRECTS=%d", n)
+	for i, l := range lines {
+		args := strings.Fields(l)
+		found := 0
+		for _, a := range args {
+			if strings.HasPrefix(a, "-dNUM_REDIRECTS") {
+				found++
+				if a != want {
+					c.Violationf("asm-table-size", "assembler invocation %d reserves the redirect table with %q, the tree has %d annotation(s)", i, a, n)
+					return
+				}
+			}
+		}
+		if found != 1 {
+			c.Violationf("asm-table-size", "assembler invocation %d carries %d NUM_REDIRECTS definitions: %q", i, found, l)
+			return
+		}
+		if !strings.Contains(l, filepath.Join(dir, asm[i])) && !strings.Contains(l, asm[i]) {
+			c.Violationf("asm-invocations", "assembler invocation %d (%q) does not name %s", i, l, asm[i])
+			return
+		}
+	}
 }
